@@ -158,12 +158,12 @@ def strategy_(draw, tier):
             t = draw(st.sampled_from(["SPARSE", "FLAT", "VMFS", "VMFSSPARSE", "SESPARSE"]))
             exts.append({"access": draw(st.sampled_from(["RW", "RDONLY", "NOACCESS"])), "sectors": draw(st.integers(0, 2**40)), "type": t,
                          "file": draw(st.sampled_from(["disk-s001.vmdk", "disk with spaces.vmdk", "dïsk 🦊.vmdk", 'a "quoted" name.vmdk', "d'(1).vmdk",
-                                                     "Windows 10 #2-s001.vmdk", "#scratch.vmdk"])) ,
+                                                     "Windows 10 #2-s001.vmdk", "#scratch.vmdk", "line\u2028sep.vmdk", "form\x0cfeed\x0bvt.vmdk", "fs\x1cnel\x85.vmdk"])) ,
                          "offset": draw(st.sampled_from([None, 0, 123])) if t in ("FLAT", "VMFS", "SPARSE") else None})
         d = {"cid": "%08x" % draw(st.integers(0, 2**32 - 1)), "parent_cid": "ffffffff", "create_type": draw(st.sampled_from(["monolithicSparse", "vmfs", "twoGbMaxExtentFlat", "seSparse"])),
              "extents": exts, "crlf": draw(st.booleans()), "comments": draw(st.booleans()),
              "ddb": dict(draw(st.lists(st.tuples(st.sampled_from(["ddb.adapterType", "ddb.geometry.cylinders", "ddb.uuid", "ddb.virtualHWVersion", "ddb.longContentID", "ddb.toolsVersion"]),
-                                                 st.sampled_from(["lsilogic", "1024", "60 00 C2 9a", "", "a = b", "x y z", "build #7 (test)", "# not a comment"])), max_size=5, unique_by=lambda x: x[0]))),
+                                                 st.sampled_from(["lsilogic", "1024", "60 00 C2 9a", "", "a = b", "x y z", "build #7 (test)", "# not a comment", "a\u2029b", "x\x1ey"])), max_size=5, unique_by=lambda x: x[0]))),
              "extra_attr": dict(draw(st.lists(st.tuples(st.sampled_from(["isNativeSnapshot", "changeTrackPath", "custom.key"]), st.sampled_from(["no", "disk-ctk.vmdk", "v=1"])), max_size=2, unique_by=lambda x: x[0]))),
              "encoding": draw(st.sampled_from([None, "UTF-8", "windows-1252"]))}
         spec = {"kind": kind, "desc": d}
